@@ -1148,6 +1148,19 @@ func (env *SpecEnv) evalCall(c *ast.CallExpr) TV {
 			}
 		case "forall", "exists":
 			// forall(i, lo, hi, body): lo <= i < hi
+			// forall(i, j, lo, hi, body): both variables range over [lo, hi) - one flat quantifier
+			if bid1, ok1 := c.Args[0].(*ast.Ident); ok1 && len(c.Args) == 5 && id.Name == "forall" {
+				if bid2, ok2 := c.Args[1].(*ast.Ident); ok2 {
+					b1 := Fresh("q_"+bid1.Name, SInt)
+					b2 := Fresh("q_"+bid2.Name, SInt)
+					lo := env.eval(c.Args[2]).V.(Scalar).T
+					hi := env.eval(c.Args[3]).V.(Scalar).T
+					inner := env.with(bid1.Name, TV{Scalar{b1}, intT}).with(bid2.Name, TV{Scalar{b2}, intT})
+					body := inner.evalBoolT(c.Args[4])
+					rng := And(Le(lo, b1), Lt(b1, hi), Le(lo, b2), Lt(b2, hi))
+					return TV{Scalar{Forall([]*Term{b1, b2}, Implies(rng, body))}, boolT}
+				}
+			}
 			bid, ok := c.Args[0].(*ast.Ident)
 			if !ok || len(c.Args) != 4 {
 				tool("spec: forall(i, lo, hi, body)")
